@@ -136,7 +136,7 @@ func (g *gen) expr(ty string, depth int) *ex {
 		case 6:
 			return un("not", g.expr("bool", d))
 		case 7:
-			return bin(kit.Pick(r, []string{"reEq", "reNe"}), g.leaf("string"), lit(g.valOf("regex")))
+			return bin(kit.Pick(r, []string{"reEq", "reNe"}), g.leaf("string"), g.leaf("regex")) // the regex may sit in a lambda node (EvalRegex)
 		case 8:
 			n := kit.Pick(r, []string{"a", "x", "s", "p", "z"})
 			g.used[n] = true
